@@ -1,5 +1,5 @@
 (* Gokrb5.model.ClientPairs — the ticket cache of model/ClientSM.v with SESSION KEYS, against a KDC that may serve
-   the renewal of a just-expired service ticket (v8/client/cache.go GetCachedTicket / renewTicket / addEntry,
+   the renewal of a just-expired service ticket and whose clock may run ahead of the client's (v8/client/cache.go GetCachedTicket / renewTicket / addEntry,
    TGSExchange).  What is handed back is a (ticket, session key) pair read from ONE cache entry; the KDC draws the
    session key of every issue from an arbitrary source, so nothing ties a key to a ticket but the issue log. *)
 From Gokrb5.lib Require Import Bytes JV.
@@ -10,6 +10,7 @@ Record pkdc := mkPK {
   pk_next : Z;                              (* next ticket id *)
   pk_life : Z; pk_renew : Z;                (* service ticket lifetime / renewable lifetime, seconds (0 = none) *)
   pk_serves : bool;                         (* serves renewal requests for service tickets (see kdc.LenientRenewUsage) *)
+  pk_ahead : Z;                             (* the KDC's clock minus the client's, ms (within the permitted skew) *)
   pk_log : list (Z * Z * Z)                 (* (ticket id, spn, session key) issued, newest first *)
 }.
 
@@ -32,20 +33,20 @@ Section Keys.
 
   (* a fresh ticket for spn at time now *)
   Definition pissue (k : pkdc) (spn now : Z) : pentry * pkdc :=
-    let start := floor_s now in
+    let start := floor_s (now + pk_ahead k) in
     let renew := if pk_renew k =? 0 then 0 else start + 1000 * pk_renew k in
     let key := keysrc (pk_next k) in
     (mkPE spn (pk_next k) key start (start + 1000 * pk_life k) renew,
-     mkPK (pk_next k + 1) (pk_life k) (pk_renew k) (pk_serves k) ((pk_next k, spn, key) :: pk_log k)).
+     mkPK (pk_next k + 1) (pk_life k) (pk_renew k) (pk_serves k) (pk_ahead k) ((pk_next k, spn, key) :: pk_log k)).
 
   (* the renewal of e: a new ticket and a NEW session key, renew-till kept, end time capped by it *)
   Definition prenew (k : pkdc) (e : pentry) (now : Z) : pentry * pkdc :=
-    let start := floor_s now in
+    let start := floor_s (now + pk_ahead k) in
     let end0 := start + 1000 * pk_life k in
     let end1 := if pe_renew e <? end0 then pe_renew e else end0 in
     let key := keysrc (pk_next k) in
     (mkPE (pe_spn e) (pk_next k) key start end1 (pe_renew e),
-     mkPK (pk_next k + 1) (pk_life k) (pk_renew k) (pk_serves k) ((pk_next k, pe_spn e, key) :: pk_log k)).
+     mkPK (pk_next k + 1) (pk_life k) (pk_renew k) (pk_serves k) (pk_ahead k) ((pk_next k, pe_spn e, key) :: pk_log k)).
 
   (* Client.GetServiceTicket -> GetCachedTicket: the entry while inside its validity; else, while renew-till is in the
      future, renewTicket: a TGS exchange with the renew option, whose reply TGSExchange stores in the cache, after which
@@ -56,7 +57,7 @@ Section Keys.
     | Some e =>
       if (pe_start e <? now) && (now <? pe_end e) then (PHit (pe_tid e) (pe_key e), s)
       else if now <? pe_renew e then
-        if pk_serves (ps_kdc s) && (now <=? pe_end e + 1000) then
+        if pk_serves (ps_kdc s) && (now + pk_ahead (ps_kdc s) <=? pe_end e + 1000) then
           let '(e', k') := prenew (ps_kdc s) e now in
           let c' := pstore e' (ps_cache s) in
           match plookup spn c' with
@@ -115,12 +116,12 @@ Definition un_pop (j : jv) : option pop :=
   | _ => None
   end.
 
-(* ( life renew serves ( ops ) ) -> per operation ( kind ticket-id key-id ) with ids numbered from 0 *)
+(* ( life renew serves ahead ( ops ) ) -> per operation ( kind ticket-id key-id ) with ids numbered from 0 *)
 Definition client_pairs_j (j : jv) : jv :=
   match j with
-  | JL [JI life; JI renew; JI serves; JL ops] =>
+  | JL [JI life; JI renew; JI serves; JI ahead; JL ops] =>
     match map_opt un_pop ops with
-    | Some ops' => jok (map j_paction (prun (fun n => n) (mkPS [] (mkPK 0 life renew (negb (serves =? 0)) [])) ops'))
+    | Some ops' => jok (map j_paction (prun (fun n => n) (mkPS [] (mkPK 0 life renew (negb (serves =? 0)) ahead [])) ops'))
     | None => jbad end
   | _ => jbad
   end.
